@@ -47,6 +47,9 @@ Record ccase := {
   c_data : list (list val);          (* n rows of len(names) values *)
   c_dx : list (string * dval);       (* an extra dictionary (broadcast / malformed stream) *)
   c_vnames : list string;            (* names for the generic unstructured_view *)
+  c_qnames : list string;            (* names (any order / subset of the f8 fields) for live_points_to_array *)
+  c_dnames : list string;            (* names (any order / subset of all fields) for live_points_to_dict *)
+  c_fields : list (string * kind);   (* caller-supplied dtype (fields in any order) for empty_structured_array *)
   c_uniq : list obs;                 (* distinct observations of the implementation *)
   c_refs : list (nat * nat)          (* (converter id, index into c_uniq) *)
 }.
@@ -83,6 +86,9 @@ Definition predict (len : bool) (sk : cfg_sk) (c : ccase) (cid : nat) : obs :=
   | 18 | 19 => of_mat (bind X (fun x => unstructured_view x names))
   | 20 => of_mat (bind X (fun x => unstructured_view x (c_vnames c)))
   | 21 => match X with Ok x => meta x | Err => OErr end
+  | 22 | 23 => of_mat (bind X (fun x => lp_to_array x (c_qnames c)))
+  | 24 => of_dict (bind X (fun x => lp_to_dict x (c_dnames c)))
+  | 25 => of_sarr (empty_sa_dtype n (c_fields c) v)
   | _ => OErr
   end.
 
